@@ -7,7 +7,7 @@ use serde_json::{json, Value};
 
 use crate::{child::probe, engine::*, refpath::*};
 
-const VALUES: &[Option<&str>] = &[None, Some(""), Some("plain"), Some("a/b"), Some("/abs/x"), Some("has space")];
+const VALUES: &[Option<&str>] = &[None, Some(""), Some("plain"), Some("a/b"), Some("/abs/x"), Some("has space"), Some("work~"), Some("~/data")];
 
 #[derive(Debug, Clone, Serialize, Deserialize)]
 pub struct EnvCase {
